@@ -97,8 +97,10 @@ def handled_set_sites : List (String × IterArg) := [
   ("src.long_read_counter:AssignedFeatureCounter.dump_ungrouped:for:all_features", .sortedBefore)]
 
 /-- run-dependent primitives.  `hash(path)` names the BAM that IsoQuant writes when it aligns FASTQ input itself
-    (needs minimap2): an intermediate file under `aux/`, no output file contains it -/
-def handled_nondeterminism : List String := ["src.read_mapper:align_fasta:hash"]
+    (needs minimap2): an intermediate file under `aux/`, no output file contains it.
+    `load_indexed_reference:uuid.uuid4` (after /repo commit eab0ef3) names the temporary file under which the FASTA index is
+    built; the file is renamed to `<reference>.fai` before anything reads it and the name reaches no output -/
+def handled_nondeterminism : List String := ["src.dataset_processor:load_indexed_reference:uuid.uuid4", "src.read_mapper:align_fasta:hash"]
 
 /-- readers of `.assignment_id`: copy / (de)serialise, and the equality test of the loader -/
 def handled_assignment_id_readers : List String := [
